@@ -108,6 +108,11 @@ func TestC03Layout(t *testing.T) {
 			fail("raw id %d != %d", zero.ID, ti.msg.GetID())
 		}
 	}
+	rec.Class("user-struct-with-int16/int64-enum-refused-at-initialization", int64(refusedUsers))
+	rec.Class("user-struct-with-int16/int64-enum-accepted-and-checked", int64(acceptedRare))
+	if refusedUsers+acceptedRare == 0 {
+		t.Fatalf("BROKEN: the generated user structs contain no enum with a rare wire type")
+	}
 	rec.Exhaustive(fmt.Sprintf("CRC_EXTRA, base size and id of all %d distinct message types (shipped + %d user structs); %d of them pinned to published values", len(tys), len(Users), nGolden))
 	perType := evid.N(200, 600)
 	evid.Check(t, rec, len(tys)*perType, func(t *rapid.T) {
